@@ -596,7 +596,10 @@ def install(m):
 
     @reg("strconv.FormatBool")
     def strconv_formatbool(m, alt, fr, ins, args, work):
-        return lift1(args[0], lambda b: "true" if b else "false") if is_bool_conc(args[0]) else Opaque(("FormatBool", args[0]))
+        b = m.bool_of(args[0])
+        if is_bool_conc(b):
+            return "true" if b else "false"
+        return mk_union([(b, "true"), (NOT(b), "false")])
 
     # ------------------------------------------------------------------ reflect (types only)
     @reg("reflect.TypeOf")
@@ -733,6 +736,15 @@ def install(m):
             return rv[2]
         return "<%s Value>" % KIND_NAMES.get(kind_of(rv[1]))
 
+    @rvfn("Interface")
+    def rv_interface(m, alt, ins, rv, rest):
+        if rv[1] is None:
+            m.do_panic(alt, Opaque("reflect: call of reflect.Value.Interface on zero Value"), ins["pos"] if ins else "")
+            raise _Panicked()
+        if m.T(rv[1])["kind"] == "interface":
+            return rv[2]
+        return Iface(rv[1], rv[2])
+
     @rvfn("IsNil")
     def rv_isnil(m, alt, ins, rv, rest):
         rv_need(m, alt, ins, rv, (18, 19, 20, 21, 22, 23), "IsNil")
@@ -767,9 +779,10 @@ def install(m):
                 return str(int(v))
             return Opaque(("FormatFloat", v))
         if c == "bool" and verb == "%v":
+            v = m.bool_of(v)
             if is_bool_conc(v):
                 return "true" if v else "false"
-            return Opaque(("FormatBool", v))
+            return mk_union([(v, "true"), (NOT(v), "false")])
         if c == "string" and verb == "%v":
             return v
         return Opaque(("fmt", verb, tk))
@@ -778,12 +791,35 @@ def install(m):
         fmt_ = args[0]
         if type(fmt_) is str and fmt_ in ("%v", "%f", "%d", "%s") and type(args[1]) is Slice and type(args[1].len) is int and args[1].len == 1:
             a = I.slice_elems(m, alt, args[1])[0]
+            if fmt_ in ("%v", "%s") and type(a) is Iface and not a.t.startswith("$"):
+                # fmt honours the Stringer interface: the result is that of the value's String method
+                try:
+                    sm = m.prog.method(a.t, "String", "")
+                except Exception:
+                    sm = None
+                if sm:
+                    f = m.fn(sm)
+                    if len(f.params) == 1 and not f.external:
+                        m.push_call(alt, sm, [a.v])
+                        return _PUSHED
             verb = "%v" if fmt_ in ("%d", "%s") else fmt_
             if type(a) is Union:
                 return mk_union([(g, fmt_scalar(m, alt, verb, x)) for g, x in a.alts])
             return fmt_scalar(m, alt, verb, a)
         return Opaque(("fmt", fmt_ if type(fmt_) is str else "?"))
     R["fmt.Sprintf"] = (False, sprintf_model)
+
+    @reg("strconv.FormatFloat")
+    def strconv_formatfloat(m, alt, fr, ins, args, work):
+        f, fmtc, prec, bits = args
+        if not (is_int_conc(fmtc) and is_int_conc(prec)):
+            raise Unsupported("symbolic FormatFloat format")
+        if prec == -1:
+            # shortest representation that parses back to f (documented contract)
+            return Opaque(("FormatFloat", f))
+        if isinstance(f, float):
+            return ("%%.%d%s" % (prec, chr(fmtc))) % f
+        return Opaque(("FormatFloatP", f, fmtc, prec))
 
     @reg("strconv.ParseInt")
     def strconv_parseint(m, alt, fr, ins, args, work):
@@ -836,6 +872,21 @@ def install(m):
         if type(r) is Union:
             return (mk_union([(g, x[0]) for g, x in r.alts]), mk_union([(g, x[1]) for g, x in r.alts]))
         return r
+
+    # ------------------------------------------------------------------ JSON (sonic / encoding/json): uninterpreted
+    def json_marshal(m, alt, fr, ins, args, work):
+        return (Opaque(("json", "marshal")), None)
+
+    def json_unmarshal(m, alt, fr, ins, args, work):
+        src = args[0]
+        if type(src) is Opaque and type(src.what) is tuple and src.what[0] == "json":
+            return None
+        # text that did not come from Marshal: well-formedness is not modelled -> either outcome
+        ok = m.nondet("json.Unmarshal.ok", "bool")
+        return mk_union([(ok, None), (NOT(ok), Iface("$error", "json: cannot unmarshal"))])
+    for pk in ("github.com/bytedance/sonic", "encoding/json"):
+        R[pk + ".Marshal"] = (False, json_marshal)
+        R[pk + ".Unmarshal"] = (False, json_unmarshal)
 
     # ------------------------------------------------------------------ math/bits
     @reg("math/bits.OnesCount64")
